@@ -1286,6 +1286,31 @@ def bigram_details_shape(ctx):
                "the position in bigram_weight_indices() is used as the left feature id" if ok else
                "the left feature id is looked up as position %+d in bigram_weight_indices(): the "
                "feature text of a neighbouring id is written in front of the costs" % c_)
+    if n == 0:
+        # the rows may be fetched by key instead of walked: then the keys must be every position of
+        # the table. Keys taken from the id->text map leave out the ids that have no text (slot 0,
+        # BOS/EOS), and the costs of those rows are not written.
+        from r_rewrite import _chain_to_source
+        for b, t in fa.calls():
+            nm = {strip_generics(x).rsplit("::", 1)[-1] for x in callee_paths(t)}
+            if not (nm & {"get", "index"}) or len(t["args"]) != 2:
+                continue
+            if "bigram_weight_indices" not in show(S.operand(t["args"][0])):
+                continue
+            key = strip_casts(S.operand(t["args"][1]))
+            for _ in range(4):
+                if key[0] == "call" and key[1].rsplit("::", 1)[-1] in ("unwrap", "try_from", "from", "from_u32") and key[2]:
+                    key = strip_casts(key[2][0])
+            if key[0] == "ap" and key[1].root[0] == "call":
+                ch = _chain_to_source(fa, fa.term(key[1].root[1])["args"][0]) if fa.term(key[1].root[1])["args"] else []
+                # follow the collected vector back through its construction
+                seen = " ".join(ch)
+                if "keys" in ch and "chain" not in ch:
+                    n += 1
+                    ctx.ob("BIGRAMROW", "%s|every-row-written" % p, False, fa.loc(b),
+                           "the rows of bigram_weight_indices() are fetched by the keys of the id->text "
+                           "map (%s): ids without a text - slot 0, BOS/EOS - are never visited and their "
+                           "costs are missing from bigram.cost" % " <- ".join(ch))
     ctx.floor("BIGRAMROW", "id lookups by table position", n, 1)
 
 
